@@ -18,6 +18,22 @@ from vlib import log
 PROPS = [("Moyo.Props.C14", "Moyo/Props/C14.lean")]
 ALGS = ("mink", "nig", "del")
 
+# branch codes of `niggliBranch` (Moyo/Model/Reduce.lean): every branch of every Niggli step that fires or sits on a tie
+NIGGLI_BRANCHES = {
+    11: "step1 A>B", 12: "step1 A=B, |xi|>|eta| (fires)", 13: "step1 A=B, |xi|<=|eta|",
+    21: "step2 B>C", 22: "step2 B=C, |eta|>|zeta| (fires)", 23: "step2 B=C, |eta|<=|zeta|",
+    31: "step3 type-I sign normalisation",
+    40: "step4 all negative (early return)", 41: "step4 sign normalisation", 42: "step4 repair via xi=0",
+    43: "step4 repair via eta=0", 44: "step4 repair via zeta=0",
+    51: "step5 |xi|>B", 52: "step5 xi=B, 2eta<zeta (fires)", 53: "step5 xi=B, 2eta>=zeta",
+    54: "step5 xi=-B, zeta<0 (fires)", 55: "step5 xi=-B, zeta>=0",
+    61: "step6 |eta|>A", 62: "step6 eta=A, 2xi<zeta (fires)", 63: "step6 eta=A, 2xi>=zeta",
+    64: "step6 eta=-A, zeta<0 (fires)", 65: "step6 eta=-A, zeta>=0",
+    71: "step7 |zeta|>A", 72: "step7 zeta=A, 2xi<eta (fires)", 73: "step7 zeta=A, 2xi>=eta",
+    74: "step7 zeta=-A, eta<0 (fires)", 75: "step7 zeta=-A, eta>=0",
+    81: "step8 xi+eta+zeta+A+B<0", 82: "step8 sum=0, 2(A+eta)+zeta>0 (fires)", 83: "step8 sum=0, 2(A+eta)+zeta<=0",
+}
+
 
 def split3(line_exp):
     """expected field is `expected ||| tag`."""
@@ -61,6 +77,8 @@ def evaluate(reqs, exps, outs):
     tags = collections.Counter()
     t_mismatch, pred_mismatch, failing, panics = [], [], [], []
     del_mismatch = {"pinned": [], "guarded": []}
+    # per branch: requests whose model run takes it [all, with T compared exactly, the latter on a lattice without symmetry]
+    branches = {c: [0, 0, 0] for c in NIGGLI_BRANCHES}
     nontrivial = set()
     samples = []
     for i, (q, e0, o) in enumerate(zip(reqs, exps, outs)):
@@ -70,20 +88,33 @@ def evaluate(reqs, exps, outs):
         if cmd == "c14":
             alg = p[1]
             if alg == "mink":
-                tags[tag.split("+")[0] + ("+U" if "+U" in tag else "")] += 1
+                base = tag.split("+")[0]
+                if base.startswith("nigbr-"):
+                    base = "-".join(base.split("-")[:2])
+                tags[base + ("+U" if "+U" in tag else "")] += 1
             if e.startswith("PANIC") or "API-DIFFERS" in e:
                 panics.append((q, e))
                 continue
             t_impl, api = [x.strip() for x in e.split("|")]
             st[f"{alg}:{api.split('(')[0]}"] += 1
             f = [x.strip() for x in o.split("|")]
-            if len(f) != (7 if alg == "del" else 5):
+            if len(f) != {"del": 7, "nig": 6}.get(alg, 5):
                 t_mismatch.append((q, e, o))
                 continue
             t_model, bad, frag, nsteps, exact = f[:5]
             stream = "int" if exact == "1" else "float"
             if t_impl != "1 0 0 0 1 0 0 0 1":
                 nontrivial.add(" ".join(p[2:]))
+            if alg == "nig" and f[5]:
+                compared = bad == "0" and frag != "1"
+                for item in f[5].split(","):
+                    c = int(item.split(":")[0])
+                    if c in branches:
+                        branches[c][0] += 1
+                        if compared:
+                            branches[c][1] += 1
+                            if tag.startswith("nigbr-asym"):
+                                branches[c][2] += 1
             if bad != "0":
                 st[f"{alg}:{stream}:model-gave-up({bad})"] += 1
             elif alg == "del":
@@ -123,7 +154,7 @@ def evaluate(reqs, exps, outs):
     for k in list(st):
         if k.startswith(f"del-{other}:"):
             del st[k]
-    return {"st": st, "tags": tags, "t_mismatch": t_mismatch, "delaunay_variant": variant, "pred_mismatch": pred_mismatch,
+    return {"st": st, "tags": tags, "t_mismatch": t_mismatch, "delaunay_variant": variant, "branches": branches, "pred_mismatch": pred_mismatch,
             "failing": failing, "panics": panics, "nontrivial": len(nontrivial), "samples": samples}
 
 
@@ -178,7 +209,8 @@ def run(tier, seed):
         "i32 entries of T are modelled by unbounded Int",
         "termination of the three loops is not proved (model fuel; exhaustion is reported and excluded)",
         "sqrt enclosures use Nat.sqrt (core), width 1e-30",
-        "oracle tolerances: reduced = basis*T to 1e-12*magnitude; lengths 100*EPS; Niggli metric 1e-6 relative (pairs), 10*EPS+1e-9*max|G| (conditions, idempotence)",
+        "oracle tolerances: reduced = basis*T to 1e-12*magnitude; lengths 100*EPS; Niggli metric 1e-6 relative (pairs), 10*EPS+1e-9*max|G| (conditions on real-valued outputs, idempotence); "
+        "integer-valued Niggli outputs are tested against the Niggli conditions proper (niggliSpecK, incl. every tie clause) exactly",
     ]
     proof_broken = bool(ob["failures"]) or not okm
     if not okm:
@@ -203,6 +235,23 @@ def run(tier, seed):
     cov["stats"] = dict(ev["st"])
     cov["fragile"] = sum(v for k, v in ev["st"].items() if k.endswith(":fragile"))
     cov["samples"] = ev["samples"]
+    cov["niggli_branch_coverage"] = {
+        f"{c} {NIGGLI_BRANCHES[c]}": {"runs": v[0], "runs_T_compared": v[1], "runs_T_compared_asymmetric_lattice": v[2]}
+        for c, v in sorted(ev["branches"].items())}
+    never = [f"{c} {NIGGLI_BRANCHES[c]}" for c, v in sorted(ev["branches"].items()) if v[1] == 0]
+    # ties whose secondary condition is an *equality* (zeta = 0 resp. eta = 0 in a type-II cell with |xi| = B, |eta| = A,
+    # |zeta| = A) force a lattice symmetry (b -> -b, c -> c + b fixes the metric), so no asymmetric witness exists
+    inherent = (55, 65, 75)
+    cov["niggli_branches_inherently_symmetric"] = [f"{c} {NIGGLI_BRANCHES[c]}" for c in inherent]
+    never_asym = [f"{c} {NIGGLI_BRANCHES[c]}" for c, v in sorted(ev["branches"].items())
+                  if v[1] > 0 and v[2] == 0 and c not in inherent]
+    cov["niggli_branches_never_taken"] = never
+    cov["niggli_branches_only_on_symmetric_lattices"] = never_asym
+    if never:
+        run.assumptions.append("WARNING: Niggli branches never exercised with exact T comparison: " + "; ".join(never))
+        print("WARNING property=C14 coverage: Niggli branches never taken (generator weakness, not a violation): " + "; ".join(never))
+    if never_asym:
+        print("WARNING property=C14 coverage: Niggli branches taken only on lattices with a symmetry: " + "; ".join(never_asym))
     cov["delaunay_variant_matched"] = ev["delaunay_variant"]
     cov["model_impl_T_disagreements"] = len(ev["t_mismatch"])
     cov["model_impl_predicate_disagreements"] = len(ev["pred_mismatch"])
